@@ -401,6 +401,8 @@ pub struct RunRec {
     pub eof_reads: u64,
     pub stalls_fired: u64,
     pub clock_jumps: u64,
+    /// explicit (replayed) preemptions that actually switched threads
+    pub preempts_applied: u64,
 }
 
 // ---------------------------------------------------------------------- kernel
@@ -467,6 +469,7 @@ struct State {
     clock_jumps: u64,
     deliveries: u64,
     exit_req_ticks: Option<u64>,
+    preempts_applied: u64,
 }
 
 pub struct Kernel {
@@ -682,6 +685,7 @@ impl Kernel {
             clock_jumps: 0,
             deliveries: 0,
             exit_req_ticks: None,
+            preempts_applied: 0,
         };
         self.clock.store(0, Relaxed);
         self.ticks.store(0, Relaxed);
@@ -763,6 +767,7 @@ impl Kernel {
             eof_reads: st.eof_reads,
             stalls_fired: st.stalls_fired,
             clock_jumps: st.clock_jumps,
+            preempts_applied: st.preempts_applied,
         }
     }
 
@@ -1005,6 +1010,7 @@ impl Kernel {
                     let p = q.pop_front().unwrap();
                     let to = p.to as usize;
                     if to < st.threads.len() && to != me && st.threads[to].status == Status::Runnable {
+                        st.preempts_applied += 1;
                         return Some((to, p.hold));
                     }
                 }
